@@ -81,6 +81,8 @@ fn family(group: &str) -> String {
         "cover"
     } else if group.contains("/fuc") {
         "fuc"
+    } else if group.contains("/sub") {
+        "manifold-cover"
     } else if group.contains("/self") {
         "self"
     } else {
